@@ -12,6 +12,9 @@ EXTENDS EduceMulti
 
 vars == <<cfg, phase>>
 
+\* the explicit rank used by the `rank` tweak: negative, so that sign handling is exercised in every spelling
+NegRank == {-3}
+
 AllEight == <<"Debug", "Clone", "PartialEq", "Eq", "PartialOrd", "Ord", "Hash", "Default">>
 WithCopy == <<"Debug", "Clone", "Copy", "PartialEq", "Eq", "PartialOrd", "Ord", "Hash", "Default">>
 Reordered == <<"Default", "Hash", "Ord", "PartialOrd", "Eq", "PartialEq", "Clone", "Debug">>
